@@ -1,4 +1,4 @@
-CONSTANTS Q = 8380417 N = 8 ZETA = 5178923 D = 13 KK = 2 LL = 2 ETA = 2 TAU = 2 GAMMA1 = 64 GAMMA2 = 95232 OMEGA = 1 LAMBDAB = 128
+CONSTANTS Q = 8380417 N = 8 ZETA = 5178923 D = 13 KK = 3 LL = 2 ETA = 2 TAU = 2 GAMMA1 = 64 GAMMA2 = 95232 OMEGA = 1 LAMBDAB = 128
 CONSTANTS NSEEDS = 4
 SPECIFICATION Spec
 INVARIANT AllFlowsOK
